@@ -25,6 +25,7 @@ func init() {
 			"inlines: words with backslash/entity/numeric escapes, emphasis/strong with either delimiter, code spans, inline/full/collapsed/shortcut links and images, autolinks, raw inline HTML, hard and soft breaks) and derives independently a Markdown spelling under random surface choices " +
 			"and the HTML the specification prescribes; the real converter (Unsafe, with and without XHTML) must produce that HTML up to the inter-block whitespace the specification's comparison ignores. " +
 			"part 2: each of the 652 spec examples is converted after spec-licensed rewrites (final newline removed/added, an unrelated closed block prepended or appended) and compared with spec.json's HTML plus the rewrite's HTML. " +
+			"part 3: an independent implementation of the emphasis rules (harness/sg/emph.go, validated against the 103 single-line examples of the specification's emphasis section that lie in its alphabet) is run in lock-step on every line over {*, _, a, space} up to length 8 (quick) / 10 (thorough), between two words and - when the line is a paragraph - as a whole line, and on random longer lines with inert punctuation. " +
 			"Non-trivial = the document has at least one block other than a paragraph; distinct = distinct AST shape signatures of the generated documents.",
 		Assumptions: []string{
 			"the generator (harness/sg, about 1000 lines) is the trusted base of part 1: every construct is generated only where the specification fixes its meaning (DESIGN.md section 4 / C02 lists the rules and the adjacency table); there is no reference implementation on this machine",
@@ -57,7 +58,10 @@ func init() {
 			return out
 		},
 		Exhaustive: func(tier string) string {
-			return "part 2 only: all 652 spec examples x the applicable rewrites of {drop final newline, add final newline, prepend paragraph, prepend thematic break, append paragraph}; part 1 is sampled"
+			if tier == "thorough" {
+				return "part 2: all 652 spec examples x the applicable rewrites; part 3: all 1,398,101 lines of length<=10 over {*, _, a, space}; part 1 is sampled"
+			}
+			return "part 2: all 652 spec examples x the applicable rewrites; part 3: all 87,381 lines of length<=8 over {*, _, a, space}; part 1 is sampled"
 		},
 	})
 }
@@ -111,7 +115,10 @@ func c02Eval(md goldmark.Markdown, cs *c02Case) (class, locus, detail string, do
 		return "", "", "", res.Doc, true
 	}
 	class = "differs-from-prescribed-html"
-	if cs.kind != "generated" {
+	if cs.kind == "emphasis-model" {
+		class = "differs-from-emphasis-model"
+		locus = "emphasis"
+	} else if cs.kind != "generated" {
 		class = "spec-example-rewrite-differs"
 		locus = cs.kind
 	} else {
@@ -138,6 +145,11 @@ func c02Check(c *core.Ctx, pool *cfg.Pool, spec cfg.Spec, cs *c02Case, st sg.Sta
 		c.Count("generated_documents", 1)
 		if doc != nil {
 			observeShape(c, doc, "")
+		}
+	} else if cs.kind == "emphasis-model" {
+		c.Count("emphasis_lines_compared_with_model", 1)
+		if doc != nil && bytes.IndexAny(cs.md, "*_") >= 0 {
+			observeShape(c, doc, "emph")
 		}
 	} else {
 		c.Count("spec_rewrites_checked", 1)
@@ -167,6 +179,31 @@ func replayC02(c *core.Ctx, v *core.Violation) (bool, string) {
 		return false, "conversion failed (C01)"
 	}
 	return cl != "", cl + " " + lo + " " + d
+}
+
+// c02Emph compares goldmark with the reference implementation of the emphasis rules on one line.
+func c02Emph(c *core.Ctx, pool *cfg.Pool, spec cfg.Spec, line string) {
+	if !sg.EmphAlphabetOK(line) {
+		return
+	}
+	st := sg.Stats(nil)
+	wrapped := "a " + line + " a"
+	c02Check(c, pool, spec, &c02Case{md: []byte(wrapped + "\n"), want: "<p>" + sg.EmphHTML(wrapped) + "</p>\n", kind: "emphasis-model"}, st)
+	// as a whole line, when the line is a paragraph (not a list item, thematic break, code or blank line)
+	t := strings.TrimSpace(line)
+	if t != line || t == "" {
+		return
+	}
+	if t[0] == '*' && (len(t) == 1 || t[1] == ' ') {
+		return
+	}
+	if strings.Trim(t, "* ") == "" || strings.Trim(t, "_ ") == "" || strings.Trim(t, "- ") == "" {
+		return
+	}
+	if t[0] == '-' || t[0] == '+' || t[0] == '#' || t[0] == '=' {
+		return
+	}
+	c02Check(c, pool, spec, &c02Case{md: []byte(line), want: "<p>" + sg.EmphHTML(line) + "</p>\n", kind: "emphasis-model"}, st)
 }
 
 // c02EndsOpenLeaf decides from an example's own tree whether appending text could land inside an open leaf block.
@@ -213,6 +250,26 @@ func runC02(c *core.Ctx) {
 		} else {
 			c.Count("spec_examples_ending_in_open_leaf_not_appended", 1)
 		}
+	}
+	// part 3: emphasis against an independent implementation of the delimiter-run rules (harness/sg/emph.go): every string
+	// over {*, _, a, space} up to a length bound, as a whole line when that line is a paragraph and between two words always;
+	// random longer lines with inert punctuation
+	L := c.N(8, 10)
+	ea := []string{"*", "_", "a", " "}
+	ne := wl.ShortCount(len(ea), L)
+	for i := 0; i < ne; i++ {
+		if !c.Mine(i) {
+			continue
+		}
+		c02Emph(c, pool, specs[i%2], wl.ShortAt(ea, L, i))
+	}
+	eb := []string{"*", "*", "_", "_", "**", "__", "***", "a", "b", " ", " ", ".", "(", ")", "\"", "!", "-"}
+	for i := c.PerShard(c.N(150000, 6000000)); i > 0; i-- {
+		var sb strings.Builder
+		for k := 2 + r.Intn(14); k > 0; k-- {
+			sb.WriteString(eb[r.Intn(len(eb))])
+		}
+		c02Emph(c, pool, specs[i%2], sb.String())
 	}
 	// part 1: generated documents
 	n := c.PerShard(c.N(300000, 12000000))
